@@ -844,6 +844,60 @@ func ruleGroupOrder(w *World, r *Report, rule string) {
 	}
 }
 
+// fieldLoop is a loop over the fields of a struct type or value through
+// reflection, in any surface form:
+//
+//	for i := 0; i < t.NumField(); i++ { f := t.Field(i) … }
+//	for i := range t.NumField() { … }        n := t.NumField(); for i := range n { … }
+type fieldLoop struct {
+	Stmt ast.Stmt
+	Body *ast.BlockStmt
+}
+
+func (l *fieldLoop) Pos() token.Pos { return l.Stmt.Pos() }
+
+// structFieldLoop finds the first loop in body whose index variable is the
+// argument of a reflect Field(i) call in its body.
+func structFieldLoop(info *types.Info, body ast.Node) *fieldLoop {
+	var out *fieldLoop
+	ast.Inspect(body, func(x ast.Node) bool {
+		if out != nil {
+			return false
+		}
+		var idx types.Object
+		var b *ast.BlockStmt
+		switch s := x.(type) {
+		case *ast.ForStmt:
+			if as, ok := s.Init.(*ast.AssignStmt); ok && len(as.Lhs) == 1 {
+				idx, b = objOf(info, as.Lhs[0]), s.Body
+			}
+		case *ast.RangeStmt:
+			if s.Key != nil {
+				if tv, ok := info.Types[s.X]; ok && tv.Type != nil {
+					if bt, isB := tv.Type.Underlying().(*types.Basic); isB && bt.Info()&types.IsInteger != 0 {
+						idx, b = objOf(info, s.Key), s.Body
+					}
+				}
+			}
+		}
+		if idx == nil || b == nil {
+			return true
+		}
+		for _, c := range callsIn(b, false) {
+			cal := callee(info, c)
+			if cal == nil || cal.Name() != "Field" || cal.Pkg() == nil || cal.Pkg().Path() != "reflect" || len(c.Args) != 1 {
+				continue
+			}
+			if objOf(info, c.Args[0]) == idx {
+				out = &fieldLoop{Stmt: x.(ast.Stmt), Body: b}
+				return false
+			}
+		}
+		return true
+	})
+	return out
+}
+
 // ruleFieldFilters: R04.3 / R04.6 sibling agreement of the four field walkers.
 func ruleFieldFilters(w *World, r *Report, rule string) {
 	sibs := []string{"(*Analyzer).analyzeParamObject", "(*ParamObjectBuilder).BuildParamObject", "(*Analyzer).analyzeResultObject", "(*ResultObjectProcessor).ProcessResultObject"}
@@ -854,17 +908,12 @@ func ruleFieldFilters(w *World, r *Report, rule string) {
 		r.Analysed(fi)
 		info := fi.Pkg.TypesInfo
 		// the loop over struct fields: for i := 0; i < T.NumField(); i++ (in the function or a private helper of it)
-		var loop *ast.ForStmt
+		var loop *fieldLoop
 		for _, f := range w.Within(fi, 2) {
 			if loop != nil {
 				break
 			}
-			ast.Inspect(f.Decl.Body, func(x ast.Node) bool {
-				if fs, ok := x.(*ast.ForStmt); ok && fs.Cond != nil && strings.Contains(exprStr(fs.Cond), "NumField") {
-					loop = fs
-				}
-				return true
-			})
+			loop = structFieldLoop(f.Pkg.TypesInfo, f.Decl.Body)
 		}
 		con := fi.Name() + "#field-filters"
 		if loop == nil {
